@@ -182,7 +182,7 @@ func cmdTryTrace(args []string) error {
 	handlers := []string{"success", "fail", "finally"}
 	for k := 1; k <= *maxK && !hung; k++ {
 		for failAt := 0; failAt <= k && !hung; failAt++ {
-			for _, nested := range []string{"none", "ok", "fail"} {
+			for _, nested := range []string{"none", "ok", "fail", "try", "try2"} {
 				for dmask := 0; dmask < 8 && !hung; dmask++ {
 					for fmask := 0; fmask < 8 && !hung; fmask++ {
 						if fmask&^dmask != 0 {
@@ -210,7 +210,13 @@ func cmdTryTrace(args []string) error {
 						for c := 1; c <= k; c++ {
 							id := fmt.Sprintf("b%d", c)
 							body = append(body, id)
-							if c == 1 && nested != "none" {
+							if c == 1 && nested == "try2" {
+								// ... whose finally handler fails at once while its success handler is still working
+								script.WriteString("pip:try --name=in --silent=false --body=\"probe --id=n1\" --success=\"probe --id=n2\" --finally=\"probe --id=n3\"\n")
+							} else if c == 1 && nested == "try" {
+								// a try block INSIDE the body: its body and its handler are tasks spawned by the outer body
+								script.WriteString("pip:try --name=in --silent=false --body=\"probe --id=n1\" --finally=\"probe --id=n2\"\n")
+							} else if c == 1 && nested != "none" {
 								script.WriteString("pip:run --name=n --silent=false --body=\"probe --id=n1\"\n")
 							}
 							script.WriteString("probe --id=" + id + "\n")
@@ -237,6 +243,12 @@ func cmdTryTrace(args []string) error {
 							wd.SetProbe(fmt.Sprintf("b%d", c), c == failAt, time.Duration(c*50)*time.Microsecond)
 						}
 						wd.SetProbe("n1", nested == "fail", 400*time.Microsecond) // the nested task outlives the body's own commands
+						wd.SetProbe("n2", false, 300*time.Microsecond)            // (nested try: its finally handler)
+						if nested == "try2" {
+							wd.SetProbe("n1", false, 100*time.Microsecond)
+							wd.SetProbe("n2", false, 3*time.Millisecond) // the nested success handler is still working ...
+							wd.SetProbe("n3", true, 0)                   // ... when the nested finally handler fails
+						}
 						for _, h := range hfails {
 							wd.SetProbe(map[string]string{"success": "s1", "fail": "f1", "finally": "y1"}[h], true, 0)
 						}
